@@ -983,3 +983,29 @@ def install_read_csv_patch():
         return df
 
     _pd.read_csv = read_csv
+
+
+_assign_patched = False
+
+
+def install_assign_patch():
+    """DataFrame.assign(col=<float>) allocates a float64 column; a later
+    ``table.loc[mask, col] = <proxies>`` would be refused by pandas.  Like the
+    float allocations of the numpy facade, such columns become object dtype
+    while a symbolic run is on."""
+    global _assign_patched
+    if _assign_patched:
+        return
+    _assign_patched = True
+    orig = _pd.DataFrame.assign
+
+    def assign(self, **kwargs):
+        out = orig(self, **kwargs)
+        if _sym_mode():
+            for k, v in kwargs.items():
+                if isinstance(v, (float, _np.floating)) or (isinstance(v, _np.ndarray) and v.dtype.kind == "f"):
+                    if k in out.columns and out[k].dtype.kind == "f":
+                        out[k] = out[k].astype(object)
+        return out
+
+    _pd.DataFrame.assign = assign
